@@ -52,6 +52,9 @@ theorem unbind_notification :
 
 /-! non-vacuity: former defect witnesses now fail closed -/
 example : (recv 10 (Sess.init .server) [48, 4, 2, 0, 66, 0]).2 = .protocolError .notice := by rfl
-example : (recv 10 (Sess.init .client) [255, 255]).1.state = .closed := by rfl
+-- (`FF FF` alone is an *incomplete* high-tag-number identifier — `receive` waits for more
+--  bytes and returns `[]`; the garbage below has a complete header that is not a SEQUENCE)
+example : (recv 10 (Sess.init .client) [255, 255, 0, 0]).1.state = .closed := by rfl
+example : (recv 10 (Sess.init .client) [255, 255]).2 = .msgs [] := by rfl
 
 end Verif.C05
